@@ -2,7 +2,7 @@
 from props import enginecore
 
 MODULE = "EngineCore"
-META = {"spec": ["EngineCore", "BarterSystem"]}
+META = {"spec": ["EngineCore", "BarterSystem", "AccountLink"]}
 
 
 def check(ctx):
@@ -10,6 +10,10 @@ def check(ctx):
     # that exchange, and the engine must show its account link (and global health) as reconnecting
     from props import composition
     composition.run(ctx, composition.C14_TAGS, runs=4 if ctx.quick else 30)
+    # the account link itself (spec/AccountLink.tla, props/acctlink.py): the disconnect notice of an ended account
+    # connection names the ExchangeId of the instrument map - not the client's constant (mock clients serve any map)
+    from props import acctlink
+    acctlink.run(ctx, {"C14"})
     return enginecore.check(ctx)
 
 
@@ -18,4 +22,7 @@ def replay(ctx, rp):
         from props import composition
         composition.run(ctx, composition.C14_TAGS, runs=4)
         return ctx.finish(write_evidence=False)
+    if rp.get("kind") == "acctlink":
+        from props import acctlink
+        return acctlink.replay(ctx, rp, {"C14"})
     return enginecore.replay(ctx, rp)
